@@ -194,6 +194,8 @@ impl ClockShared {
 
 	#[must_use]
 	pub fn fractional_position(&self) -> f64 {
+		#[cfg(kira_verif)]
+		crate::verif_hooks::yield_point(crate::verif_hooks::CLOCK_READ_BETWEEN_WORDS);
 		f64::from_bits(self.fractional_position.load(Ordering::SeqCst))
 	}
 
@@ -302,6 +304,8 @@ impl Clock {
 			} => (*ticks, *fractional_position),
 		};
 		self.shared.ticks.store(ticks, Ordering::SeqCst);
+		#[cfg(kira_verif)]
+		crate::verif_hooks::yield_point(crate::verif_hooks::CLOCK_WRITE_BETWEEN_WORDS);
 		self.shared
 			.fractional_position
 			.store(fractional_position.to_bits(), Ordering::SeqCst);
